@@ -220,5 +220,9 @@ def run(ck: Check) -> None:
         if name == "hex_key" and d.get("is"):
             s = proto.dec(ev)
             ck.oracle_checks += 1
-            if bytes.fromhex(s).hex() != s:
+            try:
+                canonical = bytes.fromhex(s).hex() == s
+            except ValueError:
+                canonical = False
+            if not canonical:
                 ck.violation("an accepted key string is not the canonical spelling of its bytes", {"value": ev[:300]}, "spelling")
